@@ -66,7 +66,7 @@ def h3_cfg(N=3):
 
 
 def specs(tier):
-    out = [Spec("h3_abort_releases_workers", build_h3(3), cfg=h3_cfg(3), unwind=4, timeout=600,
+    out = [Spec("h3_abort_releases_workers", build_h3(3), cfg=h3_cfg(3), unwind=4, timeout=1800,
                 desc="real next() and run_commit_loop with the abort flag set, arbitrary cursor state", bounds={"n": 3})]
     for s in c17.specs(tier):
         if s.name in ("h1_slot_spurious", "h2_two_conditions", "h3_commit_predicate_cancel", "h6_finality_announces_n3"):
